@@ -114,7 +114,7 @@ struct RunObs {
 }
 
 /// Execute a history of run() calls on one chain, recording the hook trace (no injection).
-fn observe<T, B>(target: AnyGT<T>, start: &[f64], delta: f64, seed: u64, runs: &[(usize, usize)], f32s: bool, rt_for_verifier: Option<&RefT>, max_leaves: usize) -> Result<Vec<RunObs>, String>
+fn observe<T, B>(target: AnyGT<T>, start: &[f64], delta: f64, seed: u64, runs: &[(usize, usize)], f32s: bool, rt_for_verifier: Option<&RefT>, max_leaves: usize, init_momentum: Option<Vec<f64>>) -> Result<Vec<RunObs>, String>
 where
     T: Float + burn::tensor::ElementConversion + burn::tensor::Element + rand_distr::uniform::SampleUniform + num_traits::FromPrimitive + std::fmt::Debug,
     B: AutodiffBackend,
@@ -131,7 +131,7 @@ where
         // reference (ties the acceptance statistic that drives the adaptation to the true energy changes)
         let full = c + d <= 20;
         let keep: Option<&'static [&'static str]> = if full { None } else { Some(&["nuts.init_momentum", "nuts.init", "nuts.end", "nuts.adapt"]) };
-        let (r, rec) = record_with(Script { prefix: vec![], momenta: vec![], f32_scalar: f32s, inject: false, keep, max_leaves }, || {
+        let (r, rec) = record_with(Script { prefix: vec![], momenta: vec![], f32_scalar: f32s, inject: false, keep, max_leaves, init_momentum: init_momentum.clone() }, || {
             chain.run(c, d);
         });
         r?;
@@ -351,7 +351,7 @@ where
         let case = json!({"backend": name, "target": tname, "delta": c.delta, "seed": c.seed, "runs": c.runs});
         ctx.evals(1);
         ctx.state(hash_str(&case.to_string()));
-        match observe::<T, B>(target.clone(), start, c.delta, c.seed, &c.runs, f32s, Some(&rt), ctx.tier.pick(1 << 11, 1 << 13)) {
+        match observe::<T, B>(target.clone(), start, c.delta, c.seed, &c.runs, f32s, Some(&rt), ctx.tier.pick(1 << 11, 1 << 13), None) {
             Err(m) if m.contains("runaway tree") => {
                 ctx.outcome("histories cut off (a transition needed more leapfrog steps than the harness allows: 2^11 quick / 2^13 thorough)", 1);
                 ctx.cap(&format!("history {:?} on {tname} (delta {}, seed {}): {m}", c.runs, c.delta, c.seed));
@@ -368,6 +368,48 @@ where
             }
         }
     });
+}
+
+/// eps0 when the unit trial step of the heuristic leaves the target's domain (the back-off path of the heuristic):
+/// starts near the boundary x forced initial momenta; eps0 must equal one of the reference variants.
+fn eps0_backoff_cases(ctx: &Ctx) {
+    let cases: Vec<(AnyGT<f64>, Vec<f64>, &str)> = vec![
+        (AnyGT::Box1, vec![0.0, 0.5], "Box1"),
+        (AnyGT::Box1, vec![0.9, -0.9], "Box1"),
+        (AnyGT::SqrtDom, vec![0.3], "SqrtDom(1)"),
+        (AnyGT::LogX, vec![0.4, 0.6], "Gamma(2,1)^2"),
+        (AnyGT::NanPocket, vec![0.9], "NanPocket(1)"),
+    ];
+    let moms: Vec<f64> = vec![-3.0, -1.5, -0.6, 0.6, 1.5, 3.0];
+    for (target, start, tname) in cases {
+        let rt = gt_ref(&target);
+        let d = start.len();
+        for i in 0..moms.len().pow(d as u32) {
+            let mut k = i;
+            let m: Vec<f64> = (0..d).map(|_| { let v = moms[k % moms.len()]; k /= moms.len(); v }).collect();
+            let case = json!({"part": "eps0-backoff", "target": tname, "start": start, "init_momentum": m});
+            ctx.evals(1);
+            ctx.transitions(1);
+            match observe::<f64, BF64>(target.clone(), &start, 0.8, 1, &[(1, 0)], false, None, 1 << 11, Some(m.clone())) {
+                Err(e) => ctx.violation(Violation::new("C04:panic", format!("NUTSChain::run(1,0) panicked during the step-size search ({tname}, start {start:?}, momentum {m:?}): {e}"), case)),
+                Ok(obs) => {
+                    let eps0 = obs[0].init[0];
+                    let (cands, margin) = eps0_candidates(&rt, &start, &m);
+                    let unit_step_bad = { let (x1, _, lp1, _) = leap(&rt, &start, &m, 1.0); !lp1.is_finite() || (rt.g)(&x1).iter().any(|v| !v.is_finite()) };
+                    if unit_step_bad {
+                        ctx.outcome("eps0 cases where the unit trial step leaves the domain", 1);
+                    }
+                    if !(eps0 > 0.0 && eps0.is_finite()) {
+                        ctx.violation(Violation::new("C04:eps-range", format!("initial step size {eps0} ({tname}, start {start:?}, momentum {m:?})"), case));
+                    } else if margin.is_finite() && margin >= 1e-7 && !cands.iter().any(|c| (c - eps0).abs() <= 1e-12 * c) {
+                        ctx.violation(Violation::new("C04:eps0-heuristic", format!("initial step size {eps0} is not what the doubling/halving heuristic gives ({cands:?}) for {tname}, start {start:?}, initial momentum {m:?} (unit trial step non-finite: {unit_step_bad})"), case));
+                    } else {
+                        ctx.outcome("eps0 back-off cases ok", 1);
+                    }
+                }
+            }
+        }
+    }
 }
 
 /// "realised acceptance close to requested on well-conditioned targets": fixed enumerated grid, wide band (non-generalising).
@@ -389,7 +431,7 @@ fn acceptance_grid(ctx: &Ctx) {
         let start: Vec<f64> = (0..d).map(|k| 0.2 * (k as f64 + 1.0)).collect();
         let case = json!({"part": "acceptance-band", "d": d, "delta": delta, "seed": seed});
         ctx.evals(1);
-        match observe::<f64, BF64>(target, &start, delta, seed, &[(keep, warm)], false, None, 1 << 13) {
+        match observe::<f64, BF64>(target, &start, delta, seed, &[(keep, warm)], false, None, 1 << 13, None) {
             Err(m) => ctx.violation(Violation::new("C04:panic", m, case)),
             Ok(obs) => {
                 let post: Vec<f64> = obs[0].trans.iter().filter(|t| t.3[0] > warm as f64).map(|t| t.0 / t.1).collect();
@@ -416,6 +458,7 @@ pub fn run(ctx: &Ctx) {
     let worst = std::sync::Mutex::new(Worst(0.0));
     histories::<f64, BF64>(ctx, "f64 / NdArray<f64>", false, &worst);
     histories::<f32, BF32>(ctx, "f32 / NdArray<f32>", true, &worst);
+    eps0_backoff_cases(ctx);
     acceptance_grid(ctx);
     ctx.extra("worst_error_over_tolerance", json!(worst.lock().unwrap().0));
     ctx.assume("the clause 'realised acceptance close to requested' is statistical: checked on a fixed, fully enumerated grid with a wide band only (not exhaustive, not generalising)");
@@ -426,6 +469,10 @@ pub fn run(ctx: &Ctx) {
 }
 
 pub fn check_case(ctx: &Ctx, case: &Value) {
+    if case["part"].as_str() == Some("eps0-backoff") {
+        eps0_backoff_cases(ctx);
+        return;
+    }
     if case.get("part").is_some() {
         acceptance_grid(ctx);
         return;
@@ -441,7 +488,7 @@ pub fn check_case(ctx: &Ctx, case: &Value) {
             let tg = targets::<$T>();
             if let Some((target, start, tn)) = tg.iter().find(|t| t.2 == tname) {
                 let rt = gt_ref(target);
-                match observe::<$T, $B>(target.clone(), start, delta, seed, &runs, f32s, Some(&rt), 1 << 13) {
+                match observe::<$T, $B>(target.clone(), start, delta, seed, &runs, f32s, Some(&rt), 1 << 13, None) {
                     Err(m) => ctx.violation(Violation::new("C04:panic", m, case.clone())),
                     Ok(obs) => check_history(ctx, &rt, &obs, delta, f32s, case, tn, &worst),
                 }
